@@ -32,6 +32,15 @@ func init() {
 
 // ---- universe -------------------------------------------------------------------------------
 
+// joinMajor builds a project path with its major-version suffix (independently of dawn's own
+// helper): majors 0 and 1 have no suffix, every other major N is "<path>@vN".
+func joinMajor(p string, major int) string {
+	if major < 2 {
+		return p
+	}
+	return fmt.Sprintf("%s@v%d", p, major)
+}
+
 type uVersion struct {
 	Path    string // full project path incl. @vN for N >= 2
 	Version string
@@ -161,6 +170,9 @@ func genUniverse(r *rand.Rand) *universe {
 		if r.IntN(8) == 0 {
 			majors = []int{0, 1, 2, 3}
 		}
+		if r.IntN(8) == 0 {
+			majors = append(majors, []int{9, 10, 11, 19, 20, 100}[r.IntN(6)]) // two- and three-digit majors
+		}
 		for _, mj := range majors {
 			nv := 1 + r.IntN(6)
 			seen := map[string]bool{}
@@ -173,7 +185,7 @@ func genUniverse(r *rand.Rand) *universe {
 					continue
 				}
 				seen[v] = true
-				full := project.JoinPathVersion(path.Join(p.repo.addr, p.dir), semver.Major(v))
+				full := joinMajor(path.Join(p.repo.addr, p.dir), mj)
 				uv := &uVersion{Path: full, Version: v, Name: p.name, projDir: p.dir}
 				u.versions[full] = append(u.versions[full], uv)
 				all = append(all, uv)
@@ -237,6 +249,12 @@ func (u *universe) finish(all []*uVersion, r *rand.Rand) {
 	}
 }
 
+func majorOf(v string) int {
+	n := 0
+	fmt.Sscanf(semver.Major(v), "v%d", &n)
+	return n
+}
+
 // specUniverse builds a universe from "path version -> requirements" lines (one repository).
 func specUniverse(spec map[string][]string) *universe {
 	u := &universe{repos: map[string]*fakeRepo{}, versions: map[string][]*uVersion{}}
@@ -250,11 +268,11 @@ func specUniverse(spec map[string][]string) *universe {
 	sort.Strings(keys)
 	for _, k := range keys {
 		f := strings.Fields(k) // "<dir> <version>"
-		full := project.JoinPathVersion(path.Join(addr, f[0]), semver.Major(f[1]))
+		full := joinMajor(path.Join(addr, f[0]), majorOf(f[1]))
 		uv := &uVersion{Path: full, Version: f[1], Name: f[0], projDir: f[0]}
 		for _, rq := range spec[k] {
 			g := strings.Fields(rq)
-			uv.Reqs = append(uv.Reqs, module.Version{Path: project.JoinPathVersion(path.Join(addr, g[0]), semver.Major(g[1])), Version: g[1]})
+			uv.Reqs = append(uv.Reqs, module.Version{Path: joinMajor(path.Join(addr, g[0]), majorOf(g[1])), Version: g[1]})
 		}
 		u.versions[full] = append(u.versions[full], uv)
 		all = append(all, uv)
